@@ -124,7 +124,8 @@ def build(scn, variant, seed):
                 # the last block ends the image; vary the image length over all residues modulo 4 (dword-wise decoding of the stage)
                 r4 = rng.randrange(4)
                 cut = offs[-1] + lens[-1] - r4
-                if cut > offs[-1] and (len(vis) == 1 or cut > offs[-2] + lens[-2]):
+                # (the shifted block must still start behind the previous block and its terminator)
+                if cut > offs[-1] and (len(vis) == 1 or offs[-1] - r4 > offs[-2] + lens[-2]):
                     offs[-1] -= r4
                     hi = offs[-1] + lens[-1]
                     img = img[:hi]
@@ -132,6 +133,8 @@ def build(scn, variant, seed):
             offs = place(rng, len(vis), lens, fo, lo, hi)
         if not offs:
             return None
+        if any(offs[j] + lens[j] > offs[j + 1] for j in range(len(offs) - 1)):
+            return None  # planted blocks must not overlap
         for i, o in zip(vis, offs):
             img[o : o + len(bb[i])] = bb[i]
             planted.append(("outer" if container == "pe" else "inner", blocks[i]["key"], o, i))
